@@ -205,6 +205,10 @@ fn exec(op: &Op) -> String {
                 let p = Path::new("db").join(OsStr::from_bytes(parts[0]));
                 if kind == b'f' {
                     std::fs::write(&p, b"x").unwrap();
+                } else if kind == b'l' {
+                    // a symbolic link that leads nowhere (or to itself): listed by readdir, not a package
+                    let target = if parts.len() > 1 && parts[1] == b"loop" { p.clone() } else { Path::new("db").join("no-such-target") };
+                    let _ = std::os::unix::fs::symlink(&target, &p);
                 } else {
                     std::fs::create_dir_all(&p).unwrap();
                     let mut i = 1;
